@@ -30,7 +30,8 @@ SHAPES = ["truthy", "len0", "boolfalse", "eqtrue", "eqfalse", "unhashable", "slo
 FALSY = ("len0", "boolfalse")
 EQ = ("eqtrue", "eqfalse", "unhashable", "slotseq", "hashraises")
 SLOTS = ("slots", "slotseq")            # no __dict__, no __weakref__: liveness is observed through __del__ instead of a weakref
-ACTIONS = ["ok", "raise", "none", "impostor"]
+ACTIONS = ["ok", "raise", "raise_te", "raise_ae", "raise_ke", "none", "impostor"]
+RAISES = {"raise": RuntimeError, "raise_te": TypeError, "raise_ae": AttributeError, "raise_ke": KeyError}
 
 
 # ------------------------------------------------------------------ per-run state (the classes are module level)
@@ -109,8 +110,16 @@ def _note(self, tok):
 _note = api.oneway(_note)
 
 
-def _creator(clazz):
-    """the instance creator of every '..._c' class; behaviour comes from the current run's script"""
+def _creator_for(holder):
+    """the instance creator of one '..._c' class. Like many real factories it can also be called without the class (the daemon
+    always passes it): a daemon that calls it a second time in another way after a failure runs its body twice"""
+    def _creator(clazz=None):
+        return _creator_body(clazz if clazz is not None else holder[0])
+    return _creator
+
+
+def _creator_body(clazz):
+    """behaviour of the instance creators; comes from the current run's script"""
     run = _RUN
     s = run.sched
     if s is None:
@@ -123,8 +132,8 @@ def _creator(clazz):
     run.creator_log.append({"key": key, "n": n, "conn": _conn_of_current_request(), "seq": _seq_of_current_request(),
                             "stamp": s.stamp(), "action": action})
     s.ev("creator", key, n, action)
-    if action == "raise":
-        raise RuntimeError("creator refuses (invocation %d)" % n)
+    if action in RAISES:
+        raise RAISES[action]("creator refuses (invocation %d)" % n)
     if action == "none":
         return None
     tid = s.me().idx
@@ -182,8 +191,10 @@ def _make_class(mode, shape, with_creator):
         ns["__eq__"] = _same_serial
         ns["__hash__"] = _hash_raises
     cls = type(name, (object,), ns)
+    holder = []
     # identical to:  @api.behavior(instance_mode=..., instance_creator=...)  @api.expose  class ...
-    cls = api.behavior(instance_mode=mode, instance_creator=_creator if with_creator else None)(api.expose(cls))
+    cls = api.behavior(instance_mode=mode, instance_creator=_creator_for(holder) if with_creator else None)(api.expose(cls))
+    holder.append(cls)
     return cls
 
 
@@ -261,7 +272,7 @@ _CODES = None
 def _codes():
     global _CODES
     if _CODES is None:
-        _CODES = S.code_objects(SV.Daemon._getInstance)     # includes the nested createInstance
+        _CODES = S.code_closure(SV.Daemon._getInstance)     # includes the nested createInstance and helpers it calls by name
     return _CODES
 
 
@@ -281,7 +292,7 @@ class InstWorld(World):
     STUB = ["sockets/selector (in-memory)", "threads (baton scheduler, line pre-emption and injected stalls in Daemon._getInstance + createInstance)",
             "time (virtual clock)", "uuid4 (seeded)",
             "Daemon.create_single_instance_lock replaced by a subclass of the simulated lock that counts contention"]
-    PROBES = ["concurrent_first_calls_overlapped", "falsy_shape", "eq_shape", "creator_used", "creator_failed",
+    PROBES = ["concurrent_first_calls_overlapped", "falsy_shape", "eq_shape", "creator_used", "creator_failed", "creator_failed_typeerror",
               "creator_wrong_type", "session_dropped_verified", "percall", "multiplex", "thread", "reconnect",
               "single", "session", "multi_class_connection", "preempted_in_getInstance", "session_dropped_while_others_connected",
               "session_dropped_after_reset", "commtimeout", "slow_constructor", "single_creation_longer_than_commtimeout_contended",
@@ -355,7 +366,8 @@ class InstWorld(World):
                 if rng.random() < 0.35:
                     script = []
                 else:
-                    script = [rng.choice(["ok", "ok", "raise", "raise", "none", "impostor"]) for _ in range(rng.randint(1, 4))]
+                    script = [rng.choice(["ok", "ok", "raise", "raise", "none", "impostor", "raise_te", "raise_ae", "raise_ke"])
+                              for _ in range(rng.randint(1, 4))]
             ob = {"mode": mode, "shape": shape, "creator": script, "work": rng.choice([0, 0, 0.05, 0.9])}
             if cr and rng.random() < 0.25:
                 ob["sub"] = True
@@ -870,8 +882,10 @@ class InstWorld(World):
             what = "%s %s on %s (connection %d)" % ("one-way call" if rec["kind"] == "note" else "call", rec["tok"], rec["key"], rec["conn"])
             if acts:
                 ctx.probe("creator_used")
-            if "raise" in failing:
+            if any(a in RAISES for a in failing):
                 ctx.probe("creator_failed")
+            if "raise_te" in failing:
+                ctx.probe("creator_failed_typeerror")
             if "none" in failing or "impostor" in failing:
                 ctx.probe("creator_wrong_type")
             if len(acts) > 1:
@@ -909,7 +923,7 @@ class InstWorld(World):
                     bad_keys.add(rec["key"])
                     continue
                 if failing:
-                    if "raise" in failing:
+                    if any(a in RAISES for a in failing):
                         ctx.violate("creator-failure-not-isolated", "not-reported",
                                     "%s succeeded although the instance creator raised while it was served" % what)
                     else:
